@@ -87,9 +87,15 @@ Definition check_case (c : case) : bool :=
   rows_eqb (model_rows t (c_hs c) (c_ids c) (c_txs c) (init (c_w0 c)) (map (dec_op t) (c_ops c))) (c_obs c).
 
 (* ---------------- property side: reference bookkeeping, independent of the model ---------------- *)
-(* the notified blocks whose height is in (last - W, last]; a later block at a height replaces the earlier *)
-Definition live_notify (W : N) (b : eblock) (live : list eblock) : list eblock :=
-  b :: filter (fun x => negb (eh x =? eh b) && (eh b <? eh x + W) && (eh x <=? eh b)) live.
+(* the highest notified height; [top] never decreases, whatever the delivery order *)
+Definition top_after (top : option N) (h : N) : N :=
+  match top with None => h | Some l => N.max l h end.
+
+(* the notified blocks whose height is in (top - W, top]; a later block at a height replaces the
+   earlier; a block delivered below the window is not kept and removes nothing *)
+Definition live_notify (W : N) (top : option N) (b : eblock) (live : list eblock) : list eblock :=
+  let top' := top_after top (eh b) in
+  filter (fun x => top' <? eh x + W) (b :: filter (fun x => negb (eh x =? eh b)) live).
 
 Definition live_restart (W : N) (last : option N) (live : list eblock) : list eblock :=
   match last with
@@ -125,7 +131,22 @@ Definition expected_row (t : list eblock) (hs ids txs : list N) (last : option N
   ++ map (fun i => enc_blk t (find_id live i)) ids
   ++ flat_map (find_tx live) txs.
 
-Fixpoint spec_walk (t : list eblock) (hs ids txs : list N) (W : N) (last : option N) (live : list eblock)
+(* direct clauses of the property on an observed row *)
+(* number of probed heights that are served *)
+Definition served_count (nhs : nat) (row : list N) : N :=
+  N.of_nat (length (filter (fun c => negb (c =? 0)) (firstn nhs (skipn 3 row)))).
+(* the height of the block GetLatestBlock returned *)
+Definition latest_h (t : list eblock) (row : list N) : option N :=
+  let c := nth 2 row 0 in
+  if (c =? 0) || (N.of_nat (length t) <? c) then None else Some (eh (nthN t (c - 1) dummy)).
+Definition not_backwards (t : list eblock) (prev row : list N) : bool :=
+  match latest_h t prev, latest_h t row with
+  | Some a, Some c => a <=? c
+  | Some _, None => false
+  | None, _ => true
+  end.
+
+Fixpoint spec_walk (t : list eblock) (hs ids txs : list N) (W : N) (top : option N) (live : list eblock)
          (prev : list N) (ops : list (N * N)) (rows : list (list N)) : bool :=
   match ops, rows with
   | [], [] => true
@@ -134,14 +155,16 @@ Fixpoint spec_walk (t : list eblock) (hs ids txs : list N) (W : N) (last : optio
          back, and what the store still holds at the old boundary is unspecified): from there on
          only the model tie (check_case) applies *)
       if negb (fst o =? 0) && (W <? snd o) then true else
-      let '(W', last', live', stable) :=
+      let '(W', top', live', stable) :=
         if fst o =? 0 then
-          let b := nthN t (snd o) dummy in (W, Some (eh b), live_notify W b live, true)
-        else (snd o, last, live_restart (snd o) last live,
+          let b := nthN t (snd o) dummy in (W, Some (top_after top (eh b)), live_notify W top b live, true)
+        else (snd o, top, live_restart (snd o) top live,
               (* a restart with the same window changes no answer *)
               negb (snd o =? W) || listN_eqb row prev) in
-      listN_eqb row (expected_row t hs ids txs last' live') && stable
-      && spec_walk t hs ids txs W' last' live' row ops' rows'
+      listN_eqb row (expected_row t hs ids txs top' live') && stable
+      (* whatever the delivery order: the latest block never goes backwards, at most W heights served *)
+      && not_backwards t prev row && (served_count (length hs) row <=? W')
+      && spec_walk t hs ids txs W' top' live' row ops' rows'
   | _, _ => false
   end.
 
